@@ -48,7 +48,7 @@ fn parts() -> Vec<Box<dyn PartDyn>> {
     vec![
         Box::new(GenPart {
             name: "closed_form",
-            quick: 6_000,
+            quick: 20_000,
             thorough: 150_000,
             shrink_iters: 400,
             strat: |t| enc_strategy(t.pick(400, 1500), false),
@@ -56,7 +56,7 @@ fn parts() -> Vec<Box<dyn PartDyn>> {
         }),
         Box::new(GenPart {
             name: "ancestor",
-            quick: 6_000,
+            quick: 20_000,
             thorough: 100_000,
             shrink_iters: 400,
             strat: |t| enc_strategy(t.pick(1200, 3000), true),
@@ -64,7 +64,7 @@ fn parts() -> Vec<Box<dyn PartDyn>> {
         }),
         Box::new(GenPart {
             name: "fullsize",
-            quick: 6,
+            quick: 8,
             thorough: 160,
             shrink_iters: 10,
             strat: fullsize_strategy,
